@@ -214,6 +214,13 @@ Theorem C20_unit_at_centre_of_optimum : forall K minpos jsa_raw singles_raw norm
   (singles_of singles_raw norm_singles so w0s w0i <> 0 -> jsi_singles_normalized singles_raw norm_singles j w0s w0i = 1).
 Proof. exact unit_at_centre_of_optimum. Qed.
 
+(* ... and through the sweep path: a sweep whose base is an optimised setup gives that setup the value 1 *)
+Theorem C20_sweep_unit_of_optimised_base : forall K minpos jsa_raw norm_jsi freq s so nf,
+  collinear_contract K -> try_as_optimum_now K minpos s = Ok (so, nf) ->
+  jsi_of jsa_raw norm_jsi so (fst (center freq so)) (snd (center freq so)) <> 0 ->
+  jsi_values_normalized K minpos optimum_idler_sees_old_poling optimum_waist_sees_old_idler jsa_raw norm_jsi freq so [so] = Ok [1].
+Proof. exact sweep_unit_of_optimised_base. Qed.
+
 (* the same PER SETUP: only what optimising THIS setup asks of the oracles *)
 Theorem C20_idempotent_now_at : forall K minpos s s' nf,
   optimum_contract_at K minpos s -> try_as_optimum_now K minpos s = Ok (s', nf) -> try_as_optimum_now K minpos s' = Ok (s', nf).
@@ -267,3 +274,4 @@ Print Assumptions C20_sweep_unit_at_optimum.
 Print Assumptions C20_sweep_pointwise.
 Print Assumptions C20_swap_involutive.
 Print Assumptions C20_idler_of_swapped_is_signal.
+Print Assumptions C20_sweep_unit_of_optimised_base.
